@@ -3,6 +3,8 @@
 From Coq Require Import List NArith String Bool.
 From Model Require Import Base Names Flt F32 Matches Detect.
 From Proofs Require Import DetectInv DetectChaos FloatLaws F32Facts.
+From Model Require Import F32.
+From Proofs Require Import F32Laws.
 Import ListNotations.
 Open Scope N_scope.
 
@@ -46,3 +48,24 @@ Theorem C04_f32_not_ge_lt :
   forall x t : f32, isnan32 x = false -> isnan32 t = false -> le32 t x = false -> lt32 x t = true.
 Proof. exact f32_not_ge_lt. Qed.
 Print Assumptions C04_f32_not_ge_lt.
+
+(* the same statements for the binary32 instance that is extracted and run: the float laws are
+   PROVED of it (Proofs/F32Laws.v), so nothing about floats is assumed any more *)
+Theorem C04_threshold_binary32 :
+  forall (R : oracles F32ops), MessOK F32ops R -> DecodeLen F32ops R ->
+  forall b cfg r, b <> [] -> len b < 2 ^ 64 -> fisnan F32ops (threshold F32ops cfg) = false ->
+    from_bytes F32ops R b cfg = Ok r ->
+    exists inc exc, shape (chaos_ok F32ops (make_ctx F32ops R b cfg inc exc)) (chaos_fb F32ops (make_ctx F32ops R b cfg inc exc)) r.
+Proof. intros R. exact (C04_threshold F32ops R F32_FloatLaws). Qed.
+Print Assumptions C04_threshold_binary32.
+
+Theorem C04_coherence_range_binary32 :
+  forall (R : oracles F32ops), MergeOK F32ops R ->
+  forall b cfg r, b <> [] -> from_bytes F32ops R b cfg = Ok r ->
+    forall m, In m r -> good F32ops (coherence F32ops m) /\ fle F32ops (coherence F32ops m) (fone F32ops) = true.
+Proof. intros R. exact (C04_coherence_range F32ops R F32_FloatLaws). Qed.
+Print Assumptions C04_coherence_range_binary32.
+
+Theorem C04_float_laws_hold_for_binary32 : FloatLaws F32ops.
+Proof. exact F32_FloatLaws. Qed.
+Print Assumptions C04_float_laws_hold_for_binary32.
